@@ -1392,10 +1392,10 @@ def check_impl(ctx) -> Result:
         if not [v for v in res.violations if v.get('where') not in known]:
             check_edit_case(ctx, res, c)
     n_stale = 0
-    for _ in range(ctx.n(70, 1500)):
+    for _ in range(ctx.n(70, 1200)):
         if _POISON['hit']:
             break
-        c = gen_edit_case(rng, allow_stale_draws=n_stale < ctx.n(2, 30))
+        c = gen_edit_case(rng, allow_stale_draws=n_stale < ctx.n(2, 20))
         n_stale += 1 if c['isolated'] else 0
         check_edit_case(ctx, res, c)
         if [v for v in res.violations if v.get('where') not in known]:
@@ -1416,7 +1416,7 @@ def check_impl(ctx) -> Result:
     for t in CORPUS_MC_TREES:
         check_audit(ctx, res, t, dict_path=False)
         check_audit(ctx, res, t, dict_path=True)
-    for i in range(ctx.n(150, 3000)):
+    for i in range(ctx.n(150, 2400)):
         t = gen_ptree(rng, rng.randint(2, 5), clean=rng.random() < 0.7)
         check_audit(ctx, res, t, dict_path=(i % 6 == 5))
         mc_trees.append(t)
